@@ -1003,6 +1003,13 @@ func (e *SpecEnv) call(x *Expr) SVal {
 		case "off":
 			a := e.eval(args[0])
 			return goVal("(s.off "+a.T+")", tInt)
+		case "bvat":
+			// bvat(b, i): byte i of the byte-string value b
+			a, i := e.eval(args[0]), e.eval(args[1])
+			if e.sortOfVal(a) != "BV" {
+				e.fail("bvat needs a byte-string value (use val(...))")
+			}
+			return goVal("(bv.at "+a.T+" "+i.T+")", tInt)
 		case "sha256", "sha384", "sha512":
 			a := e.eval(args[0])
 			if e.sortOfVal(a) != "BV" {
